@@ -47,6 +47,10 @@ var Texts = map[string]string{
   grouping sg { leaf sl { type string; } }
   container fromsub { leaf x { type string; } }
 }`,
+	// a submodule reachable by two include paths
+	"m6": `module m6 { namespace "urn:m6"; prefix m6; include s6a; include s6b; container top6 { uses ga; uses gb; } }`,
+	"s6a": `submodule s6a { belongs-to m6 { prefix m6; } include s6b; grouping ga { leaf la { type string; } } container ca { uses gb; } }`,
+	"s6b": `submodule s6b { belongs-to m6 { prefix m6; } grouping gb { leaf lb { type string; } } container cb; }`,
 	// two revisions of one module and an importer without revision-date: the import must follow the latest loaded
 	"bb-r1": `module bb { namespace "urn:bb"; prefix bb; revision 2020-01-01; grouping g { leaf old { type string; } } }`,
 	"bb-r2": `module bb { namespace "urn:bb"; prefix bb; revision 2021-01-01; grouping g { leaf new { type string; } } }`,
